@@ -386,6 +386,16 @@ def compare_matrices(case, c, tomo, ctx):
         return np.asarray(A, dtype=float), np.asarray(B, dtype=float)
     ok = ctx.close(A, c.A_ref, tol, f"matA_vs_born:{c.tomo}")
     ok = ctx.close(B, c.B_ref, tol, f"vecB_vs_born:{c.tomo}") and ok
+    if ok and isinstance(A, np.ndarray) and isinstance(B, np.ndarray):
+        # a caller that rescales the matrices it was given (whitening, weighting) does not change the model the
+        # tomography object reports next
+        keepA, keepB = np.array(A, dtype=float, copy=True), np.array(B, dtype=float, copy=True)
+        if A.flags.writeable and B.flags.writeable:
+            A *= 2
+            B += 1
+            ctx.equal(np.asarray(tomo.calc_matA(), dtype=float), keepA, f"matA_unchanged_after_caller_edit:{c.tomo}")
+            ctx.equal(np.asarray(tomo.calc_vecB(), dtype=float), keepB, f"vecB_unchanged_after_caller_edit:{c.tomo}")
+        return keepA, keepB
     return (np.asarray(A, dtype=float), np.asarray(B, dtype=float)) if ok else None
 
 
